@@ -17,8 +17,11 @@ use serde::{forward_to_deserialize_any, Deserialize};
 #[derive(Clone, Copy)]
 struct Param {
     alg: i32,
-    public_key_type: bool,
+    /// 0: "public-key", 1: "public-kez" (unknown type of the same length), 2: a 33-byte type string (one beyond the capacity)
+    kind: u8,
 }
+
+const LONG_TYPE: &str = "aaaaaaaaaaaaaaaaaaaaaaaaaaaaaaaaa";
 
 struct ParamDe(Param);
 struct ParamMap(Param, u8);
@@ -36,10 +39,17 @@ impl<'de> Deserializer<'de> for ParamDe {
 
 impl<'de> MapAccess<'de> for ParamMap {
     type Error = VErr;
-    fn next_key_seed<K: DeserializeSeed<'de>>(&mut self, seed: K) -> Result<Option<K::Value>, VErr> {
+    fn next_key_seed<K: DeserializeSeed<'de>>(
+        &mut self,
+        seed: K,
+    ) -> Result<Option<K::Value>, VErr> {
         match self.1 {
-            0 => seed.deserialize(BorrowedStrDeserializer::new("alg")).map(Some),
-            1 => seed.deserialize(BorrowedStrDeserializer::new("type")).map(Some),
+            0 => seed
+                .deserialize(BorrowedStrDeserializer::new("alg"))
+                .map(Some),
+            1 => seed
+                .deserialize(BorrowedStrDeserializer::new("type"))
+                .map(Some),
             _ => Ok(None),
         }
     }
@@ -47,10 +57,12 @@ impl<'de> MapAccess<'de> for ParamMap {
         self.1 += 1;
         if self.1 == 1 {
             seed.deserialize(I32Deserializer::new(self.0.alg))
-        } else if self.0.public_key_type {
+        } else if self.0.kind == 0 {
             seed.deserialize(BorrowedStrDeserializer::new("public-key"))
-        } else {
+        } else if self.0.kind == 1 {
             seed.deserialize(BorrowedStrDeserializer::new("public-kez"))
+        } else {
+            seed.deserialize(BorrowedStrDeserializer::new(LONG_TYPE))
         }
     }
 }
@@ -66,7 +78,10 @@ struct ParamSeq<'a> {
 impl<'de, 'a> Deserializer<'de> for ParamList<'a> {
     type Error = VErr;
     fn deserialize_any<V: Visitor<'de>>(self, v: V) -> Result<V::Value, VErr> {
-        v.visit_seq(ParamSeq { items: self.items, at: 0 })
+        v.visit_seq(ParamSeq {
+            items: self.items,
+            at: 0,
+        })
     }
     forward_to_deserialize_any! {
         bool i8 i16 i32 i64 i128 u8 u16 u32 u64 u128 f32 f64 char str string bytes byte_buf option unit
@@ -76,7 +91,10 @@ impl<'de, 'a> Deserializer<'de> for ParamList<'a> {
 
 impl<'de, 'a> SeqAccess<'de> for ParamSeq<'a> {
     type Error = VErr;
-    fn next_element_seed<T: DeserializeSeed<'de>>(&mut self, seed: T) -> Result<Option<T::Value>, VErr> {
+    fn next_element_seed<T: DeserializeSeed<'de>>(
+        &mut self,
+        seed: T,
+    ) -> Result<Option<T::Value>, VErr> {
         if self.at < self.items.len() {
             let p = self.items[self.at];
             self.at += 1;
@@ -87,11 +105,15 @@ impl<'de, 'a> SeqAccess<'de> for ParamSeq<'a> {
     }
 }
 
-fn params_case<const N: usize>() {
-    let mut items = [Param { alg: 0, public_key_type: true }; N];
+fn params_case<const N: usize>(allow_long: bool) {
+    assert!(LONG_TYPE.len() == 33);
+    let mut items = [Param { alg: 0, kind: 0 }; N];
     let mut i = 0;
+    let mut any_long = false;
     while i < N {
-        items[i] = Param { alg: kani::any(), public_key_type: kani::any() };
+        let kind: u8 = kani::any();
+        kani::assume(kind < if allow_long { 3 } else { 2 });
+        items[i] = Param { alg: kani::any(), kind };
         i += 1;
     }
     let n: usize = kani::any();
@@ -102,15 +124,18 @@ fn params_case<const N: usize>() {
     let mut w = 0;
     let mut i = 0;
     while i < n {
-        let known = items[i].public_key_type && (items[i].alg == -7 || items[i].alg == -8);
+        let known = items[i].kind == 0 && (items[i].alg == -7 || items[i].alg == -8);
         if known && w < 2 {
             want[w] = items[i].alg;
             w += 1;
         }
+        any_long = any_long || items[i].kind == 2;
         i += 1;
     }
     match r {
         Ok(f) => {
+            // C12: a type string of 33 bytes is beyond the declared capacity and must reject the list
+            assert!(!any_long, "C12/C14: an algorithm-parameter type string of 33 bytes was accepted");
             assert!(f.0.len() == w, "C14: wrong number of known parameters kept");
             if w > 0 {
                 assert!(f.0[0].alg == want[0], "C14: first preference wrong");
@@ -119,22 +144,29 @@ fn params_case<const N: usize>() {
                 assert!(f.0[1].alg == want[1], "C14: second preference wrong");
             }
         }
-        Err(_) => panic!("C14: a parameter list with unknown entries was rejected"),
+        Err(_) => assert!(any_long, "C14: a parameter list with unknown entries was rejected"),
     }
-    kani::cover!(w == 2 && n == N);
-    kani::cover!(w == 0 && n == N);
+    kani::cover!(w == 2 && n == N && !any_long);
+    kani::cover!(w == 0 && n == N && !any_long);
 }
 
 #[kani::proof]
 #[kani::unwind(14)]
 pub fn c14_k_filtered_params_upto3() {
-    params_case::<3>();
+    params_case::<3>(false);
+}
+
+/// same loop, entries may also carry a 33-byte type string (C12: one beyond the 32-byte capacity => rejected)
+#[kani::proof]
+#[kani::unwind(36)]
+pub fn c14_k_filtered_params_type_capacity() {
+    params_case::<2>(true);
 }
 
 #[kani::proof]
 #[kani::unwind(14)]
 pub fn c14_k_filtered_params_upto6() {
-    params_case::<6>();
+    params_case::<6>(false);
 }
 
 // ------------------------------------------------------------ a list of attestation formats
@@ -151,7 +183,11 @@ struct FormatSeq<'a> {
 impl<'de: 'a, 'a> Deserializer<'de> for FormatList<'de> {
     type Error = VErr;
     fn deserialize_any<V: Visitor<'de>>(self, v: V) -> Result<V::Value, VErr> {
-        v.visit_seq(FormatSeq { items: self.items, other: self.other, at: 0 })
+        v.visit_seq(FormatSeq {
+            items: self.items,
+            other: self.other,
+            at: 0,
+        })
     }
     forward_to_deserialize_any! {
         bool i8 i16 i32 i64 i128 u8 u16 u32 u64 u128 f32 f64 char str string bytes byte_buf option unit
@@ -161,7 +197,10 @@ impl<'de: 'a, 'a> Deserializer<'de> for FormatList<'de> {
 
 impl<'de> SeqAccess<'de> for FormatSeq<'de> {
     type Error = VErr;
-    fn next_element_seed<T: DeserializeSeed<'de>>(&mut self, seed: T) -> Result<Option<T::Value>, VErr> {
+    fn next_element_seed<T: DeserializeSeed<'de>>(
+        &mut self,
+        seed: T,
+    ) -> Result<Option<T::Value>, VErr> {
         if self.at < self.items.len() {
             let k = self.items[self.at];
             self.at += 1;
@@ -198,7 +237,10 @@ fn formats_case<const N: usize>() {
     let other = unsafe { core::str::from_utf8_unchecked(&ob) };
     let n: usize = kani::any();
     kani::assume(n <= N);
-    let r = AttestationFormatsPreference::deserialize(FormatList { items: &kinds[..n], other });
+    let r = AttestationFormatsPreference::deserialize(FormatList {
+        items: &kinds[..n],
+        other,
+    });
     let mut want = [0u8; 2];
     let mut w = 0;
     let mut unknown = false;
@@ -218,14 +260,23 @@ fn formats_case<const N: usize>() {
         Ok(p) => {
             let kf = p.known_formats();
             assert!(kf.len() == w, "C14: wrong number of known formats kept");
-            let fmt = |k: u8| if k == 0 { AttestationStatementFormat::Packed } else { AttestationStatementFormat::None };
+            let fmt = |k: u8| {
+                if k == 0 {
+                    AttestationStatementFormat::Packed
+                } else {
+                    AttestationStatementFormat::None
+                }
+            };
             if w > 0 {
                 assert!(kf[0] == fmt(want[0]), "C14: first format preference wrong");
             }
             if w > 1 {
                 assert!(kf[1] == fmt(want[1]), "C14: second format preference wrong");
             }
-            assert!(p.includes_unknown_formats() == unknown, "C14: unknown-format flag wrong");
+            assert!(
+                p.includes_unknown_formats() == unknown,
+                "C14: unknown-format flag wrong"
+            );
         }
         Err(_) => panic!("C14: a format list with unknown entries was rejected"),
     }
@@ -243,4 +294,88 @@ pub fn c14_k_attestation_formats_upto3() {
 #[kani::unwind(14)]
 pub fn c14_k_attestation_formats_upto5() {
     formats_case::<5>();
+}
+
+
+// ------------------------------------------------------------ the hand-written Serialize (C02 / C03)
+mod counting {
+    //! A serde `Serializer` that only counts: the announced length of a sequence and the number of
+    //! elements actually emitted.
+    use serde::ser::{Impossible, Serialize, SerializeSeq, Serializer};
+    use serde::de::value::Error as VErr;
+
+    pub struct Counting;
+    pub struct SeqCount {
+        announced: Option<usize>,
+        emitted: usize,
+    }
+    macro_rules! unsupported {
+        ($($f:ident($t:ty)),*) => { $(fn $f(self, _v: $t) -> Result<Self::Ok, VErr> { Err(serde::ser::Error::custom("")) })* };
+    }
+    impl Serializer for Counting {
+        type Ok = (Option<usize>, usize);
+        type Error = VErr;
+        type SerializeSeq = SeqCount;
+        type SerializeTuple = Impossible<Self::Ok, VErr>;
+        type SerializeTupleStruct = Impossible<Self::Ok, VErr>;
+        type SerializeTupleVariant = Impossible<Self::Ok, VErr>;
+        type SerializeMap = Impossible<Self::Ok, VErr>;
+        type SerializeStruct = Impossible<Self::Ok, VErr>;
+        type SerializeStructVariant = Impossible<Self::Ok, VErr>;
+        unsupported!(serialize_bool(bool), serialize_i8(i8), serialize_i16(i16), serialize_i32(i32), serialize_i64(i64),
+            serialize_u8(u8), serialize_u16(u16), serialize_u32(u32), serialize_u64(u64), serialize_f32(f32), serialize_f64(f64),
+            serialize_char(char), serialize_str(&str), serialize_bytes(&[u8]));
+        fn serialize_none(self) -> Result<Self::Ok, VErr> { Err(serde::ser::Error::custom("")) }
+        fn serialize_some<T: ?Sized + Serialize>(self, _v: &T) -> Result<Self::Ok, VErr> { Err(serde::ser::Error::custom("")) }
+        fn serialize_unit(self) -> Result<Self::Ok, VErr> { Err(serde::ser::Error::custom("")) }
+        fn serialize_unit_struct(self, _n: &'static str) -> Result<Self::Ok, VErr> { Err(serde::ser::Error::custom("")) }
+        fn serialize_unit_variant(self, _n: &'static str, _i: u32, _v: &'static str) -> Result<Self::Ok, VErr> { Err(serde::ser::Error::custom("")) }
+        fn serialize_newtype_struct<T: ?Sized + Serialize>(self, _n: &'static str, _v: &T) -> Result<Self::Ok, VErr> { Err(serde::ser::Error::custom("")) }
+        fn serialize_newtype_variant<T: ?Sized + Serialize>(self, _n: &'static str, _i: u32, _v: &'static str, _x: &T) -> Result<Self::Ok, VErr> { Err(serde::ser::Error::custom("")) }
+        fn collect_str<T: ?Sized + core::fmt::Display>(self, _v: &T) -> Result<Self::Ok, VErr> { Err(serde::ser::Error::custom("")) }
+        fn serialize_seq(self, len: Option<usize>) -> Result<SeqCount, VErr> { Ok(SeqCount { announced: len, emitted: 0 }) }
+        fn serialize_tuple(self, _l: usize) -> Result<Self::SerializeTuple, VErr> { Err(serde::ser::Error::custom("")) }
+        fn serialize_tuple_struct(self, _n: &'static str, _l: usize) -> Result<Self::SerializeTupleStruct, VErr> { Err(serde::ser::Error::custom("")) }
+        fn serialize_tuple_variant(self, _n: &'static str, _i: u32, _v: &'static str, _l: usize) -> Result<Self::SerializeTupleVariant, VErr> { Err(serde::ser::Error::custom("")) }
+        fn serialize_map(self, _l: Option<usize>) -> Result<Self::SerializeMap, VErr> { Err(serde::ser::Error::custom("")) }
+        fn serialize_struct(self, _n: &'static str, _l: usize) -> Result<Self::SerializeStruct, VErr> { Err(serde::ser::Error::custom("")) }
+        fn serialize_struct_variant(self, _n: &'static str, _i: u32, _v: &'static str, _l: usize) -> Result<Self::SerializeStructVariant, VErr> { Err(serde::ser::Error::custom("")) }
+    }
+    impl SerializeSeq for SeqCount {
+        type Ok = (Option<usize>, usize);
+        type Error = VErr;
+        fn serialize_element<T: ?Sized + Serialize>(&mut self, _value: &T) -> Result<(), VErr> {
+            self.emitted += 1;
+            Ok(())
+        }
+        fn end(self) -> Result<Self::Ok, VErr> { Ok((self.announced, self.emitted)) }
+    }
+}
+
+/// Contract of the hand-written `FilteredPublicKeyCredentialParameters::serialize`: a definite-length
+/// sequence whose announced length is the number of elements emitted, one per stored entry
+/// (duplicates included): C02 "each member that is set appears once", C03 "one well-formed item".
+#[kani::proof]
+#[kani::unwind(6)]
+pub fn c03_k_filtered_params_serialize_length() {
+    use serde::Serialize;
+    let mut v: heapless::Vec<KnownPublicKeyCredentialParameters, COUNT_KNOWN_ALGS> = heapless::Vec::new();
+    let n: usize = kani::any();
+    kani::assume(n <= 2);
+    let mut i = 0;
+    while i < n {
+        let a: bool = kani::any();
+        v.push(KnownPublicKeyCredentialParameters { alg: if a { ES256 } else { ED_DSA } }).ok();
+        i += 1;
+    }
+    let f = FilteredPublicKeyCredentialParameters(v);
+    match f.serialize(counting::Counting) {
+        Ok((announced, emitted)) => {
+            assert!(announced.is_some(), "C03: indefinite-length array");
+            assert!(announced == Some(emitted), "C03: announced array length differs from the number of elements emitted");
+            assert!(emitted == n, "C02: a stored algorithm was not emitted exactly once");
+        }
+        Err(_) => panic!("C02: serialising the algorithm list failed"),
+    }
+    kani::cover!(n == 2);
 }
